@@ -219,6 +219,81 @@ let cmd_alloc fixed0 (toks : string list) : string =
   apool := { !apool with a_free = compact !apool.a_free; a_cls = compact !apool.a_cls };
   Buffer.contents b
 
+(* ---------------- GivMMRefCount on pointer variables (Model.rstep); the pool persists across sequences *)
+let rpool : rstate ref = ref (rinit (ni 3))
+let nqv = 3
+type rtok = { rk : char; ri : int; ra : int }
+let parse_rtok (t : string) : rtok =
+  let args = List.map int_of_string (String.split_on_char ',' (String.sub t 1 (String.length t - 1))) in
+  match args with
+  | [i] -> { rk = t.[0]; ri = i; ra = 0 }
+  | [i; a] -> { rk = t.[0]; ri = i; ra = a }
+  | _ -> failwith ("bad rc op " ^ t)
+(* usz: the size each variable's owner believes its block has (the harness keeps the same bookkeeping) *)
+let rop_of (usz : int array) (o : rtok) : rop =
+  match o.rk with
+  | 'n' -> let r = QNew (ni o.ri, zi o.ra) in usz.(o.ri) <- o.ra; r
+  | 's' -> usz.(o.ri) <- usz.(o.ra); QAssign (ni o.ri, ni o.ra)
+  | 'z' -> usz.(o.ri) <- 0; QAssignNull (ni o.ri)
+  | 'f' -> usz.(o.ri) <- 0; QFree (ni o.ri)
+  | 'r' -> let old = usz.(o.ri) in usz.(o.ri) <- o.ra; QResize (ni o.ri, zi old, zi o.ra)
+  | 'p' -> QProbe (ni o.ri)
+  | _ -> failwith "bad rc op"
+let rcompact () =
+  let r = !rpool in
+  rpool := { r with rs_a = { r.rs_a with a_free = compact r.rs_a.a_free; a_cls = compact r.rs_a.a_cls }; rs_cnt = compact r.rs_cnt }
+let robs (r : rstate) : int list =
+  let out = ref [] in
+  for i = 0 to nqv - 1 do
+    match getq r (ni i) with
+    | None -> out := (-1) :: !out
+    | Some p -> out := iz (rcnt r p) :: iofn (cls r.rs_a p) :: iofn p :: !out
+  done; List.rev !out
+let rshow (r : rstate) (probe : z list) : string =
+  let b = Buffer.create 64 in
+  for i = 0 to nqv - 1 do
+    match getq r (ni i) with
+    | None -> Buffer.add_string b (Printf.sprintf "q%d:- " i)
+    | Some p -> Buffer.add_string b (Printf.sprintf "q%d:%d/%d/%d " i (iofn p) (iofn (cls r.rs_a p)) (iz (rcnt r p)))
+  done;
+  if probe <> [] then Buffer.add_string b ("probe=" ^ String.concat "," (List.map (fun x -> string_of_int (iz x)) probe) ^ " ");
+  Buffer.contents b
+let rcleanup () =
+  for i = 0 to nqv - 1 do rpool := fst (rstep !tab !rpool (QFree (ni i))) done; rcompact ()
+let cmd_rcq (toks : string list) : string =
+  let usz = Array.make nqv 0 in
+  let b = Buffer.create 256 in
+  List.iter (fun t ->
+    let (r, pr) = rstep !tab !rpool (rop_of usz (parse_rtok t)) in
+    rpool := r; Buffer.add_string b ("| " ^ rshow r pr)) toks;
+  rcleanup (); Buffer.contents b
+let ralphabet (sizes : int list) : rtok list =
+  let l = ref [] in
+  let add x = l := x :: !l in
+  for i = 0 to nqv - 1 do List.iter (fun s -> add { rk = 'n'; ri = i; ra = s }) sizes done;
+  for i = 0 to nqv - 1 do for j = 0 to nqv - 1 do add { rk = 's'; ri = i; ra = j } done done;
+  for i = 0 to nqv - 1 do add { rk = 'z'; ri = i; ra = 0 } done;
+  for i = 0 to nqv - 1 do add { rk = 'f'; ri = i; ra = 0 } done;
+  for i = 0 to nqv - 1 do List.iter (fun s -> add { rk = 'r'; ri = i; ra = s }) sizes done;
+  for i = 0 to nqv - 1 do add { rk = 'p'; ri = i; ra = 0 } done;
+  List.rev !l
+let cmd_rcenum sizes lmax (prefix : string list) : string =
+  let alpha = ralphabet sizes in
+  let nodes = ref 0 in
+  h1 := 0; h2 := 0;
+  let rec visit (seq : rtok list) (len : int) =
+    nodes := !nodes + 1;
+    let usz = Array.make nqv 0 in
+    let probe = ref [] in
+    List.iter (fun o -> let (r, pr) = rstep !tab !rpool (rop_of usz o) in rpool := r; probe := pr) (List.rev seq);
+    List.iter mix (robs !rpool);
+    (match !probe with [] -> () | pr -> String.iter (fun c -> mix (Char.code c)) (String.concat "," (List.map (fun x -> string_of_int (iz x)) pr)));
+    rcleanup ();
+    if len < lmax then List.iter (fun a -> visit (a :: seq) (len + 1)) alpha in
+  let pre = List.map parse_rtok prefix in
+  visit (List.rev pre) (List.length pre);
+  Printf.sprintf "%d %d %d" !nodes !h1 !h2
+
 let () = run_lines (fun toks ->
   match toks with
   | "tab" :: vs -> tab := List.map z_of_string vs; "ok " ^ string_of_int (List.length vs)
@@ -227,6 +302,8 @@ let () = run_lines (fun toks ->
   | "enum" :: fx :: es :: addr :: nh :: sizes :: l :: prefix ->
     cmd_enum (parse_fx fx) (zi (int_of_string es)) (addr = "1") (int_of_string nh)
       (List.map int_of_string (String.split_on_char ',' sizes)) (int_of_string l) prefix
+  | "rcq" :: ops -> cmd_rcq ops
+  | "rcenum" :: sizes :: l :: prefix -> cmd_rcenum (List.map int_of_string (String.split_on_char ',' sizes)) (int_of_string l) prefix
   | "alloc" :: f0 :: ops -> cmd_alloc (f0 = "1") ops
   | "sb" :: szs -> String.concat " " (List.map (fun s -> match search_binary !tab (z_of_string s) with
       | None -> "throw" | Some i -> string_of_z i) szs)
